@@ -144,3 +144,8 @@ pub use crate::types::*;
 // internal modules
 mod common;
 mod tcp;
+
+/// Verification-only entry points (feature `verif-hooks`): run the production session loops
+/// over a caller-supplied in-memory byte stream. Contains no protocol logic of its own.
+#[cfg(feature = "verif-hooks")]
+pub mod verif;
